@@ -260,7 +260,7 @@ def classify(a) -> str:
 # enumeration
 # ---------------------------------------------------------------------------
 ATOMS = [
-    ("int",), ("str",), ("bool",), ("float",), ("any",), ("none",), ("enum",), ("lit", ("a", 1)),
+    ("int",), ("str",), ("bool",), ("float",), ("any",), ("none",), ("enum",), ("lit", ("a", 1, "alpha-beta", 65536)),  # members that CPython caches as singletons and members it does not
     ("nt", "NTint"), ("nt", "NTnode"), ("nt", "NTnt"), ("node", "N0"), ("node", "N1"), ("node", "Fz"), ("fwd", "L0"),
 ]
 R0 = [("int",), ("str",), ("none",), ("node", "N0"), ("node", "N1"), ("nt", "NTnode"), ("fwd", "L0")]
